@@ -17,6 +17,7 @@ import (
 func init() {
 	vpRegister("vpH_C29_open", vpH_C29_open)
 	vpRegister("vpH_C29_readdir", vpH_C29_readdir)
+	vpRegister("vpH_C29_listing", vpH_C29_listing)
 }
 
 type vpBlobs map[string][]byte
@@ -148,4 +149,52 @@ func vpH_C29_readdir() {
 	}
 	vpKnown("readdir-restarts", true)
 	vpAssert("all-entries-eventually", len(seen) == 2)
+}
+
+// a second tree for listings:  /m/ {a/, b/, x}   /k/ {a/}   /d/ {g, l2 -> g}   /e/ (empty)
+func vpC29ListTree() *CASFileSystem {
+	dM := &pb.Directory{
+		Files:       []*pb.FileNode{{Name: "x", Digest: vpDg("F", 1)}},
+		Directories: []*pb.DirectoryNode{{Name: "a", Digest: vpDg("E", 0)}, {Name: "b", Digest: vpDg("E", 0)}},
+	}
+	dK := &pb.Directory{Directories: []*pb.DirectoryNode{{Name: "a", Digest: vpDg("E", 0)}}}
+	dD := &pb.Directory{
+		Files:    []*pb.FileNode{{Name: "g", Digest: vpDg("G", 1)}},
+		Symlinks: []*pb.SymlinkNode{{Name: "l2", Target: "g"}},
+	}
+	root := &pb.Directory{Directories: []*pb.DirectoryNode{{Name: "m", Digest: vpDg("M", 0)}, {Name: "k", Digest: vpDg("K", 0)},
+		{Name: "d", Digest: vpDg("D", 0)}, {Name: "e", Digest: vpDg("E", 0)}}}
+	return &CASFileSystem{
+		c:           vpBlobs{"F": []byte("A"), "G": []byte("B")},
+		root:        root,
+		directories: map[digest.Digest]*pb.Directory{{Hash: "M", Size: 0}: dM, {Hash: "K", Size: 0}: dK, {Hash: "D", Size: 0}: dD, {Hash: "E", Size: 0}: {}},
+		workingDir:  ".",
+	}
+}
+
+// vpH_C29_listing: ReadDir(n <= 0) of a directory of the view lists exactly the
+// files, sub-directories and symlinks of that directory in the tree - also where
+// the sub-directories outnumber the files.
+func vpH_C29_listing() {
+	fs := vpC29ListTree()
+	dirs := []string{"m", "k", "d", "e"}
+	want := [][]string{{"a", "b", "x"}, {"a"}, {"g", "l2"}, {}}
+	k := vpChoice("directory", len(dirs))
+	f, err := fs.Open(dirs[k])
+	vpAssert("directory-opens", err == nil)
+	n := []int{-1, 0}[vpChoice("n", 2)]
+	es, err := f.(iofs.ReadDirFile).ReadDir(n)
+	vpAssert("listing-succeeds", err == nil)
+	got := map[string]bool{}
+	for _, e := range es {
+		vpAssert("no-entry-twice", !got[e.Name()])
+		got[e.Name()] = true
+	}
+	vpAssert("exactly-as-many-entries-as-the-tree-has", len(es) == len(want[k]))
+	for _, w := range want[k] {
+		vpAssert("every-entry-of-the-tree-listed", got[w])
+	}
+	// and through the io/fs helper that tools use
+	es2, err := iofs.ReadDir(fs, dirs[k])
+	vpAssert("iofs.ReadDir-agrees", err == nil && len(es2) == len(want[k]))
 }
